@@ -404,6 +404,8 @@ def container_ops(self_move=False, node_forms=True):
                     st.tuples(st.just("del"), cref, ctgt), detach, attach_ops())
     solo = st.tuples(st.just("solo"), st.sampled_from(["commit", "reopen"]), one, st.sampled_from(["commit", "reopen", "reopen"]))
     extra = [st.tuples(st.just("selfmove"), ctgt)] if self_move else []
+    # a group moved below itself: raw HDF5 detaches the subtree, so the only sound outcome is a refusal without effect
+    extra.append(st.tuples(st.just("move_into_self"), ctgt, st.sampled_from(["inner", "x/y", "g"])))
     cpmv = st.one_of(
         st.tuples(st.just("mcopy"), cref, cref, dpath, st.booleans(), st.booleans(),
                   st.sampled_from(["str", "str", "node_src", "group_dst", "group_dst_name"] if node_forms else ["str"])),
@@ -858,6 +860,26 @@ class CSession:
                                     "refused (nothing is writable)")
                 self.classes.add("refused_without_open_patch")
             self.steps.append((kind, False))
+        elif kind == "move_into_self":
+            p = self._annotated_or_ancestor(op[1]) if isinstance(op[1], int) else self._node_target(op[1])
+            node = self.model.tree.lookup(p) if p else None
+            if not p or p == "/" or node is None or node.kind != "g":
+                return
+            dst = p + "/" + op[2]
+
+            def fail(model):
+                raise OpFails("into own subtree")
+
+            self.run_all(lambda ti, t: t.mc.move(p, dst), fail, "move_into_self", p)
+            for t in self.targets:
+                try:
+                    still = p in t.mc and sorted(t.mc[p].keys()) == sorted(node.children)
+                except Exception:  # noqa: BLE001
+                    still = False
+                if not still:
+                    raise Violation(f"{self.sig}:refused-move-destroyed-subtree", f"step {self.pos}: move({p!r}, {dst!r}) on {t.driver} was refused, "
+                                    f"but {p} (children {sorted(node.children)}) is gone or changed", "refused without effect")
+            self.classes.add("move_into_own_subtree_refused")
         elif kind == "selfmove":
             p = self._node_target(op[1])
             if p == "/":
